@@ -134,6 +134,8 @@ func observeErr(err error) Observation {
 var (
 	guardLimit = 240 * time.Second
 	guardHung  atomic.Bool
+
+	guardHungCount atomic.Int32
 )
 
 func guard(f func() Observation) Observation {
@@ -142,6 +144,9 @@ func guard(f func() Observation) Observation {
 	limit := guardLimit
 	if guardHung.Load() {
 		limit = 5 * time.Second
+		if guardHungCount.Load() >= 10 {
+			limit = 200 * time.Millisecond // (settled long ago: get through the remaining cases)
+		}
 	}
 	tm := time.NewTimer(limit)
 	defer tm.Stop()
@@ -150,6 +155,7 @@ func guard(f func() Observation) Observation {
 		return o
 	case <-tm.C:
 		guardHung.Store(true)
+		guardHungCount.Add(1)
 		return Observation{Kind: "panic", Note: fmt.Sprintf("the call did not return within %v: it is blocked inside the library (neither a value nor an error)", limit)}
 	}
 }
